@@ -1,15 +1,28 @@
 import Mainchain.Model.Script
+import Mainchain.Model.Pure
 open Mainchain Mainchain.Script
+
+def chomp (line : String) : String :=
+  String.ofList (line.toList.reverse.dropWhile (fun c => c = '\n' || c = '\r')).reverse
 
 partial def loop (h : IO.FS.Stream) (out : IO.FS.Stream) (wall : Nat) (it : Interp) : IO Unit := do
   let line ← h.getLine
   if line.isEmpty then return ()
-  let l := (line.dropRightWhile (fun c => c = '\n' || c = '\r'))
-  let (it', outs) := step wall it l
+  let (it', outs) := step wall it (chomp line)
   for o in outs do out.putStrLn o
   loop h out wall it'
 
-/-- `mdriver [wall]` : script on stdin, trace on stdout -/
+partial def pureLoop (h : IO.FS.Stream) (out : IO.FS.Stream) : IO Unit := do
+  let line ← h.getLine
+  if line.isEmpty then return ()
+  let l := chomp line
+  if l.isEmpty then out.putStrLn "" else out.putStrLn (Pure.eval ((l.splitOn " ").filter (· ≠ "")))
+  pureLoop h out
+
+/-- `mdriver [wall]` : script on stdin, trace on stdout ; `mdriver pure` : pure requests -/
 def main (args : List String) : IO Unit := do
-  let wall := (args.head?.bind String.toNat?).getD 0
-  loop (← IO.getStdin) (← IO.getStdout) wall {}
+  match args with
+  | ["pure"] => pureLoop (← IO.getStdin) (← IO.getStdout)
+  | _ =>
+    let wall := (args.head?.bind String.toNat?).getD 0
+    loop (← IO.getStdin) (← IO.getStdout) wall {}
